@@ -66,9 +66,27 @@ func c04Sample(kind string, xs []float64) (stats.TTestSample, *big.Float, *big.F
 	}
 	switch kind {
 	case "stream":
+		// built from shards that are combined (sometimes with an empty one):
+		// a t-test must not care how its StreamStats came to be
 		s := &stats.StreamStats{}
-		for _, x := range xs {
-			s.Add(x)
+		cut1, cut2 := len(xs)/3, (2*len(xs)+1)/3
+		var a, b, e stats.StreamStats
+		for i, x := range xs {
+			switch {
+			case len(xs)%2 == 0:
+				s.Add(x)
+			case i < cut1:
+				s.Add(x)
+			case i < cut2:
+				a.Add(x)
+			default:
+				b.Add(x)
+			}
+		}
+		if len(xs)%2 == 1 {
+			a.Combine(&e)
+			a.Combine(&b)
+			s.Combine(&a)
 		}
 		return s, m.Mean, vr, kappa
 	case "struct":
@@ -197,7 +215,24 @@ func c04Judge(w *mon.W, c c04Case) {
 			// moves the mean by as much and the sd by up to sqrt(n) as much
 			kappa := (maxAbs + bigAbs(mean)) / ref.F64(sd)
 			tolT = 16 * nn * eps * ((maxAbs+bigAbs(mean)+math.Abs(c.Mu0))/ref.F64(se) + bigAbs(tStar)*(1+kappa*math.Sqrt(float64(n1))))
-			if ref.F64(sd) < 64*nn*eps*maxAbs {
+			rounded := false
+			for i := range x1 {
+				if ref.NF(x1[i]-x2[i]).Cmp(d[i]) != 0 {
+					rounded = true
+				}
+			}
+			if !rounded {
+				// every float64 difference is exact: the conditioning is
+				// that of the differences themselves, however small they are
+				// next to the data
+				dmax := 0.0
+				for i := range d {
+					dmax = math.Max(dmax, bigAbs(d[i]))
+				}
+				kd := (dmax + bigAbs(mean)) / ref.F64(sd)
+				tolT = 16 * nn * eps * ((dmax+bigAbs(mean)+math.Abs(c.Mu0))/ref.F64(se) + bigAbs(tStar)*(1+kd))
+				w.Hit("paired-exact-differences")
+			} else if ref.F64(sd) < 64*nn*eps*maxAbs {
 				// the spread of the differences is at rounding level: the
 				// float64 differences need not resemble the exact ones
 				w.Ambiguous()
@@ -427,7 +462,7 @@ func hasSpread(xs []float64) bool {
 func c04Run(r *mon.Run) {
 	r.Rule("random samples of 2..40 finite values, |x|<=1e6, relative spread >=1e-6, equal/unequal sizes and variances, ties, one constant sample; mu0 from within 1e-9 standard errors of the mean to 30+ standard errors away; 3 alternatives; Sample, *StreamStats and a plain struct as TTestSample; related calls: swapped samples, power-of-two scaling, shifts; error inputs; MeanCI for c in [0,1] incl. 0,1,1e-12,1-1e-12. Non-trivial = hits a class; distinct by hash of inputs.")
 	r.Assume("means/variances/T/DoF recomputed at 384 bits from the exact float64 inputs; Student-t reference: closed form (integer DoF) / gonum mathext (Welch)", "tolerances follow the conditioning |mean|/sd of the inputs (DESIGN section 4b)")
-	r.Gate("equal-variances-unequal-sizes", "welch-unequal-n-and-variance", "tiny-T", "huge-T", "kind-sample", "kind-stream", "kind-struct",
+	r.Gate("paired-exact-differences", "paired-correlated-small-differences", "scaled-down-by-2^-20..-200", "equal-variances-unequal-sizes", "welch-unequal-n-and-variance", "tiny-T", "huge-T", "kind-sample", "kind-stream", "kind-struct",
 		"error-"+stats.ErrSampleSize.Error(), "error-"+stats.ErrZeroVariance.Error(), "error-"+stats.ErrMismatchedSamples.Error(),
 		"meanci-empty", "meanci-c<=0", "meanci-infinite", "meanci-regular", "one-sample-zero-variance", "meanci-tiny-c", "meanci-c-near-1")
 	tests := []string{"two", "welch", "paired", "one"}
@@ -459,6 +494,16 @@ func c04Run(r *mon.Run) {
 			rng.ShuffleF(c.X1)
 			rng.ShuffleF(c.X2)
 			w.Hit("equal-variances-unequal-sizes")
+		}
+		if test == "paired" && i%12 == 6 {
+			// correlated pairs: x2 = x1 - (small, exactly representable
+			// differences), the situation the paired test is made for
+			g := math.Ldexp(1, rng.Range(-40, -2))
+			for k := range c.X2 {
+				c.X1[k] = math.Round(c.X1[k])
+				c.X2[k] = c.X1[k] - float64(rng.Range(-3, 9))*g
+			}
+			w.Hit("paired-correlated-small-differences")
 		}
 		switch rng.Intn(6) {
 		case 0: // same location: small T
@@ -518,8 +563,12 @@ func c04Run(r *mon.Run) {
 		}
 		sc := c
 		f := math.Ldexp(1, rng.Range(-8, 4))
-		if rng.Bool() {
+		switch rng.Intn(3) {
+		case 0:
 			f = rng.LogUniform(1e-3, 1)
+		case 1: // far down: an absolute threshold anywhere in the computation shows
+			f = math.Ldexp(1, -rng.Range(20, 200))
+			w.Hit("scaled-down-by-2^-20..-200")
 		}
 		sc.X1, sc.X2 = scaled(c.X1, f, 0), scaled(c.X2, f, 0)
 		sc.Mu0 = c.Mu0 * f
